@@ -36,6 +36,13 @@ def chain_plan(rng, depth):
             pl.files[p] = bytes(rng.randrange(256) for _ in range(rng.randint(1, 20)))
     for dd, nm in mdirs.items():
         pl.manifests[os.path.join(dd, nm) if dd else nm] = []
+    # the layout of the real Gentoo repository: the top-level Manifest references nothing but a second Manifest of the top
+    # directory (Manifest.files[.gz]), which holds everything else - the chain then passes through a same-directory link
+    split_top = rng.random() < 0.35
+    files_nm = 'Manifest.files' + rng.choice(['', '.gz', '.xz'])
+    if split_top:
+        pl.manifests[files_nm] = []
+        chain.insert(1, files_nm)
     # a second Manifest in one directory of the chain, referenced from its sibling
     extra_dir = rng.choice(sorted(mdirs)) if rng.random() < 0.4 else None
     if extra_dir is not None:
@@ -49,6 +56,8 @@ def chain_plan(rng, depth):
     for p in sorted(pl.files):
         g = governing(p)
         mp = os.path.join(g, mdirs[g]) if g else mdirs[g]
+        if split_top and g == '':
+            mp = files_nm
         if g == extra_dir and rng.random() < 0.5:
             mp = os.path.join(g, 'Manifest.extra') if g else 'Manifest.extra'
         pl.manifests[mp].append({'tag': 'DATA', 'path': gen_tree.rel(p, g), 'target': p, 'hashes': rng.choice(gen_tree.HASHSETS[1:])})
@@ -56,6 +65,9 @@ def chain_plan(rng, depth):
         if mp == 'Manifest':
             continue
         dd = os.path.dirname(mp)
+        if split_top and mp == files_nm:
+            pl.manifests['Manifest'].append({'tag': 'MANIFEST', 'path': files_nm, 'target': files_nm, 'hashes': rng.choice(gen_tree.HASHSETS[1:])})
+            continue
         if os.path.basename(mp) == 'Manifest.extra':
             parent = os.path.join(dd, mdirs[dd]) if dd else mdirs[dd]
             gdir = dd
@@ -65,6 +77,8 @@ def chain_plan(rng, depth):
             while gdir not in mdirs:
                 gdir = os.path.dirname(gdir)
             parent = os.path.join(gdir, mdirs[gdir]) if gdir else mdirs[gdir]
+        if split_top and parent == 'Manifest':
+            parent = files_nm
         pl.manifests[parent].append({'tag': 'MANIFEST', 'path': gen_tree.rel(mp, gdir), 'target': mp,
                                      'hashes': rng.choice(gen_tree.HASHSETS[1:])})
     deepest = chain[-1]
@@ -78,17 +92,21 @@ def run_apis(ctx, drv, root, pl, victim, vdir, chain, k, kind):
     world = trees.world_of(root, trees.hash_names_in(texts))
     broken = chain[k]
     for api in APIS:
+        # on a fresh loader, or - as `gemato verify` does - after find_timestamp() on the same loader
+        pre = ctx.rng.random() < 0.4
         if api.startswith('assert_directory_verifies'):
             path = vdir if api.endswith('(sub)') else ''
-            impl = treeimpl.verify_dir(root, 'Manifest', path)
+            impl = treeimpl.verify_dir(root, 'Manifest', path, pre_find_timestamp=pre)
             req = {'op': 'verify_dir', 'world': world, 'top': cps('Manifest'), 'path': cps(path), 'xdev': True, 'handler': None,
-                   'last_mtime': None}
+                   'last_mtime': None, 'pre_find_timestamp': pre}
         elif api == 'find_dist_entry':
-            impl = treeimpl.lookup(root, 'Manifest', api, vdir, 'dist-1.tar.gz')
-            req = {'op': 'lookup', 'world': world, 'top': cps('Manifest'), 'api': api, 'path': cps(vdir), 'filename': cps('dist-1.tar.gz')}
+            impl = treeimpl.lookup(root, 'Manifest', api, vdir, 'dist-1.tar.gz', pre_find_timestamp=pre)
+            req = {'op': 'lookup', 'world': world, 'top': cps('Manifest'), 'api': api, 'path': cps(vdir), 'filename': cps('dist-1.tar.gz'),
+                   'pre_find_timestamp': pre}
         else:
-            impl = treeimpl.lookup(root, 'Manifest', api, victim)
-            req = {'op': 'lookup', 'world': world, 'top': cps('Manifest'), 'api': api, 'path': cps(victim)}
+            impl = treeimpl.lookup(root, 'Manifest', api, victim, pre_find_timestamp=pre)
+            req = {'op': 'lookup', 'world': world, 'top': cps('Manifest'), 'api': api, 'path': cps(victim), 'pre_find_timestamp': pre}
+        ctx.count('loader:' + ('after-find_timestamp' if pre else 'fresh'))
         model = drv.ask(req)['model']
         scen = {'op': 'tamper', 'api': api, 'k': k, 'kind': kind, 'chain': chain, 'victim': victim, 'request': req}
         ctx.count('api:' + api)
